@@ -83,11 +83,25 @@ def run(ctx):
             return "%s-primitive-wrong" % name
         return "%s-class-wrong" % name
 
+    hrng = ctx.rng("c24-histories")
+
     def one(desc):
         want = accepted(desc)
         for name, fn in fns:
             ctx.ev()
             ctx.count(name)
+            if name == "util.get_type" and desc[0] == '[' and hrng.random() < 0.2:
+                # the sized form get_type('[T', n) -> 'T[n]' asked BEFORE the plain question about the same descriptor (answers must not leak between calls)
+                size = hrng.choice([0, 1, 4, 255])
+                ctx.count("util.get_type_sized_calls")
+                try:
+                    gs = fn(desc, size)
+                    if gs not in {"%s[%d]" % (a, size) for a in accepted(desc[1:])}:
+                        ctx.violation("util.get_type-sized-form-wrong", "get_type('[T', n) is not 'T[n]'", {"desc": desc, "size": size, "got": gs})
+                except RecursionError:
+                    pass
+                except Exception as e:
+                    ctx.violation("util.get_type-sized-raises", "get_type(desc, size) raises on a valid descriptor", {"desc": desc, "exc": exc_str(e)})
             try:
                 got = fn(desc)
             except RecursionError:
@@ -139,7 +153,7 @@ def end_to_end(ctx):
     from androguard.decompiler.decompiler import DecompilerDAD
     from vf.model import dexw as W
     rng = ctx.rng("c24-e2e")
-    n = 40 if ctx.quick else 6000
+    n = 120 if ctx.quick else 12000
     for k in range(n):
         m = W.DexModel()
         classes = []
@@ -170,7 +184,41 @@ def end_to_end(ctx):
                 c.add_method("m%d" % mi, ret, params, W.ACC_PUBLIC | W.ACC_ABSTRACT)
                 methods.append(("m%d" % mi, ret, params))
             c.access |= W.ACC_ABSTRACT
-            classes.append((cname, sup, ifs, fields, methods))
+            bodies = []
+            OBJ = "Ljava/lang/Object;"
+            for bi in range(rng.randrange(0, 4)):
+                form = rng.choice(["cc", "io", "kc", "na", "ni", "sg", "iv", "fa"])
+                t = gen_desc(rng)
+                if t.count("[") > 6:
+                    t = t.lstrip("[")
+                if form in ("ni", "sg", "iv"):
+                    t = t.lstrip("[")
+                    if t in PRIMS:
+                        t = "Ljava/lang/ref/Foo;"
+                if form in ("na", "fa") and not t.startswith("["):
+                    t = "[" * rng.choice([1, 2, 3]) + t
+                if t == "V" or t.lstrip("[") == "V":
+                    t = "[I" if form in ("na", "fa") else OBJ
+                nm = "b%d" % bi
+                ST = W.ACC_PUBLIC | W.ACC_STATIC
+                if form == "cc":
+                    c.add_method(nm, OBJ, (OBJ,), ST, W.Code(2, 1, 0, [("check-cast", 1, W.Typ(t)), ("return-object", 1)]))
+                elif form == "io":
+                    c.add_method(nm, "Z", (OBJ,), ST, W.Code(2, 1, 0, [("instance-of", 0, 1, W.Typ(t)), ("return", 0)]))
+                elif form == "kc":
+                    c.add_method(nm, "Ljava/lang/Class;", (), ST, W.Code(1, 0, 0, [("const-class", 0, W.Typ(t)), ("return-object", 0)]))
+                elif form == "na":
+                    c.add_method(nm, OBJ, ("I",), ST, W.Code(3, 1, 0, [("new-array", 0, 2, W.Typ(t)), ("return-object", 0)]))
+                elif form == "ni":
+                    c.add_method(nm, OBJ, (), ST, W.Code(1, 0, 1, [("new-instance", 0, W.Typ(t)), ("invoke-direct", [0], W.Mth(t, "<init>", "V", ())), ("return-object", 0)]))
+                elif form == "sg":
+                    c.add_method(nm, OBJ, (), ST, W.Code(1, 0, 0, [("sget-object", 0, W.Fld(t, "f", OBJ)), ("return-object", 0)]))
+                elif form == "iv":
+                    c.add_method(nm, OBJ, (OBJ,), ST, W.Code(2, 1, 1, [("invoke-static", [1], W.Mth(t, "g", OBJ, (OBJ,))), ("move-result-object", 0), ("return-object", 0)]))
+                else:
+                    c.add_method(nm, OBJ, ("I", "I"), ST, W.Code(3, 2, 2, [("filled-new-array", [1, 2], W.Typ(t)), ("move-result-object", 0), ("return-object", 0)]))
+                bodies.append((nm, form, t))
+            classes.append((cname, sup, ifs, fields, methods, bodies))
         try:
             d = DEX(W.write_dex(m))
             dx = Analysis(d)
@@ -179,7 +227,7 @@ def end_to_end(ctx):
         except Exception as e:
             ctx.violation("e2e-parse-raises", "DEX/Analysis raises on a generated file", {"exc": exc_str(e)})
             continue
-        for cname, sup, ifs, fields, methods in classes:
+        for cname, sup, ifs, fields, methods, bodies in classes:
             ctx.ev()
             ctx.count("classes_decompiled")
             try:
@@ -228,6 +276,24 @@ def end_to_end(ctx):
                     if g not in accepted(pd):
                         ctx.violation("parameter-type-" + pkgclass_of(pd), "parameter type rendered as a different Java type", dict(wit, method=mname, desc=pd, got=g, accepted=sorted(accepted(pd))))
                     ctx.sig("e2e-param", pkgclass_of(pd), min(pd.count("["), 3))
+            # types named inside method bodies: cast, instanceof, class constant, array creation, instance creation, static member owner
+            BODY_RX = {"cc": r"\(\((.+?)\) p\d+\)", "io": r"\(p\d+ instanceof (.+?)\)", "kc": r"return (.+?);", "na": r"new ([^\s;(){}]+)\[[^\]]+\]", "ni": r"new ([^\s;(){}]+)\(\)",
+                       "sg": r"return (.+?)\.f;", "iv": r"return (.+?)\.g\(", "fa": r"new ([^\s;(){}]+) \{"}
+            for nm, form, t in bodies:
+                bm = re.search(r" %s\([^)]*\)\s*\{(.*?)\n    \}" % nm, src, re.S)
+                ctx.count("printed_types_compared")
+                ctx.count("body_types_compared")
+                if not bm:
+                    ctx.violation("method-not-printed", "a declared method is missing in the decompiled class", dict(wit, method=nm))
+                    continue
+                tm = re.search(BODY_RX[form], bm.group(1))
+                want_t = t[1:] if form == "na" else t     # new E[n]: E is the element type of the array type of the instruction
+                if not tm:
+                    ctx.violation("body-type-not-printed-" + form, "the type operand of the instruction is not found in the printed body", dict(wit, method=nm, form=form, desc=t, body=bm.group(1)))
+                elif tm.group(1) not in accepted(want_t):
+                    ctx.violation("body-type-%s-%s" % (form, pkgclass_of(want_t)), "a type named in a method body is rendered as a different Java type",
+                                  dict(wit, method=nm, form=form, desc=t, got=tm.group(1), accepted=sorted(accepted(want_t)), body=bm.group(1)))
+                ctx.sig("e2e-body", form, pkgclass_of(want_t), min(want_t.count("["), 3))
         if k == 0:
             ctx.sample({"e2e_class": classes[0][0], "fields": classes[0][3], "methods": classes[0][4], "source": src[:500]})
 
